@@ -1072,6 +1072,9 @@ class OptimiserHistory:
         if self._filename is None:
             raise RuntimeError("File not opened - cannot store data")
 
+        if not os.path.isfile(self._filename):
+            raise FileNotFoundError("The trajectory file no longer exists")
+
         # python's ZipFile does not allow overwriting files
         with ZipFile(self._filename, "a") as file:
             names = file.namelist()
